@@ -210,3 +210,28 @@ def run_conn(ctx, props):
     cov.setdefault("samples", []).append({"connection_stream": cases[0]["stream"][:80], "chunk_sizes": cases[0]["sizes"][:20], "reply": cases[0]["reply"][:80]} if cases else {})
     cov["rule"] = cov.get("rule", "") + " ; connection level: PRNG pipelines of 1..%d commands (PING variants incl. array/CRLF arguments, THROTTLE with bulk/integer arguments, 5/6 arity, invalid and malformed forms, unknown commands with CR/LF/non-ASCII names incl. dotless-i case variants, QUIT, protocol errors, truncated last frame) over real TCP in PRNG splittings (single write, 1-byte, small, large, mixed)" % maxc
     ctx.assumptions.append("connection tests use an emission interval of 104 days so that limiter answers do not depend on wall-clock time; reset/retry values are compared only for sign")
+
+
+def run_latereader(ctx):
+    """C14 / C10 under back-pressure: a pipelining client that starts reading only when its own writes stall; the reply stream
+    must be exactly one echo frame per command, in order (implementation-side oracle, no model needed: PING echoes)."""
+    bins = C.harness_build(ctx, "srv", ["conn"])
+    if not bins:
+        return
+    out = C.run_harness(ctx, bins["conn"], ["--mode", "latereader", "--seed", ctx.seed, "--cases", 2 if ctx.tier == "quick" else 12], timeout=1200)
+    rows = [json.loads(l) for l in out.splitlines() if l.startswith("{")]
+    st = {"pipelines": len(rows), "commands": 0, "reply_bytes": 0, "client_stalled": 0}
+    for r in rows:
+        st["commands"] += r["commands"]
+        st["reply_bytes"] += r["reply_bytes"]
+        st["client_stalled"] += r["client_stalled_at_command"] >= 0
+        if r["first_difference_at_byte"] >= 0 or r["write_error"]:
+            ctx.violations.append({"what": "%s: the reply stream of a pipelining client that reads late is not one echo frame per command, in order: %d of %d reply bytes arrived, first difference at byte %d (inside reply #%d)%s"
+                                           % (ctx.pid, r["reply_bytes"], r["expected_bytes"], r["first_difference_at_byte"], r["in_reply_number"], (" ; write error: " + r["write_error"]) if r["write_error"] else ""),
+                                   "input": {"harness": "conn --mode latereader", "history": "ONE RESP connection: %d commands `PING <payload of %d bytes, numbered>` written back to back; the client starts reading only when its own "
+                                             "writes stall (at command #%d), then reads everything" % (r["commands"], r["payload_bytes"], r["client_stalled_at_command"])}})
+        else:
+            ctx.coverage["traces_validated_against_impl"] = ctx.coverage.get("traces_validated_against_impl", 0) + 1
+    ctx.coverage["evaluations"] = ctx.coverage.get("evaluations", 0) + st["commands"]
+    ctx.coverage.setdefault("input_distribution", {})["late_reader"] = st
+    ctx.coverage["rule"] = ctx.coverage.get("rule", "") + " || back-pressure: 400 x 40000-byte and 1500 x 9000-byte PING pipelines on one connection, the client reads only after its writes stall"
